@@ -36,6 +36,14 @@ Theorem C10_refuse_only_exhausted : forall c h ip t0 ts,
 Proof. exact C10_proofs.refuse_only_exhausted. Qed.
 Print Assumptions C10_refuse_only_exhausted.
 
+(* the same as a monitor: on every (time-ordered) history the model's decisions pass Spec.C10.ideal_ok, the clause the
+   harness evaluates on the implementation's decisions *)
+From NV Require Proofs.C10_ideal.
+Theorem C10_ideal_ok : forall c h,
+  0 <= rate c -> Spec.C10.sorted h -> Spec.C10.ideal_ok c (run c [] h) = true.
+Proof. exact C10_ideal.ideal_ok_run. Qed.
+Print Assumptions C10_ideal_ok.
+
 (* tokens stay within [0, capacity] *)
 Theorem C10_tokens_range : forall c now b ok b',
   0 <= rate c -> 0 <= cap c -> 0 <= tokens b -> tokens b <= cap c -> last b <= now ->
